@@ -38,32 +38,39 @@ def nudgeRounded (r1 step num D inc : Int) (mode : RMode) : Int :=
 /-- `dt.iso.add_date_duration(calendar, &duration, ZeroTimeDuration, None)` then `as_nanoseconds`. -/
 def addDateToDt (dt : IsoDateTime) (d : Dur) : Out IsoDateTime := dt.addDateDuration d .constrain
 
+/-- The bracket `[r1, r2]` around the duration's smallest-unit field and the two date durations that realise it
+    (first half of `NudgeToCalendarUnit`). -/
+def nudgeBracket (sign : Int) (dt : IsoDateTime) (date : Dur) (o : Resolved) : Out (Int × Int × Dur × Dur) :=
+  let inc := o.increment
+  let step := inc * signMul sign
+  match o.smallest with
+  | .year =>
+    let r1 := truncToIncrement date.years inc
+    Out.ok (r1, r1 + step, dateDur r1 0 0 0, dateDur (r1 + step) 0 0 0)
+  | .month =>
+    let r1 := truncToIncrement date.months inc
+    .ok (r1, r1 + step, dateDur date.years r1 0 0, dateDur date.years (r1 + step) 0 0)
+  | .week => do
+    -- weeksStart = date + years/months (constrain); weeksEnd = weeksStart + days
+    let ws ← dt.date.addDateDuration date.years date.months 0 0 .constrain
+    let dv ← asDateValue date.days
+    let we := IsoDate.balance ws.year ws.month (ws.day + dv)
+    let ws ← plainDateTryNew ws.year ws.month ws.day
+    let we ← plainDateTryNew we.year we.month we.day
+    let untilR ← plainDateInternalDiff ws we .week
+    let r1 := truncToIncrement (F64.ofInt (date.weeks + untilR.weeks)) inc
+    pure (r1, r1 + step, dateDur date.years date.months r1 0, dateDur date.years date.months (r1 + step) 0)
+  | .day =>
+    let r1 := truncToIncrement date.days inc
+    .ok (r1, r1 + step, dateDur date.years date.months date.weeks r1,
+         dateDur date.years date.months date.weeks (r1 + step))
+  | _ => .panic
+
 /-- `NudgeToCalendarUnit` (no time zone). -/
 def nudgeCalendarUnit (sign : Int) (destNs : Int) (dt : IsoDateTime) (date : Dur) (o : Resolved) : Out NudgeRecord := do
   let inc := o.increment
   let step := inc * signMul sign
-  let (r1, r2, startD, endD) ← (match o.smallest with
-    | .year =>
-      let r1 := truncToIncrement date.years inc
-      Out.ok (r1, r1 + step, dateDur r1 0 0 0, dateDur (r1 + step) 0 0 0)
-    | .month =>
-      let r1 := truncToIncrement date.months inc
-      .ok (r1, r1 + step, dateDur date.years r1 0 0, dateDur date.years (r1 + step) 0 0)
-    | .week => do
-      -- weeksStart = date + years/months (constrain); weeksEnd = weeksStart + days
-      let ws ← dt.date.addDateDuration date.years date.months 0 0 .constrain
-      let dv ← asDateValue date.days
-      let we := IsoDate.balance ws.year ws.month (ws.day + dv)
-      let ws ← plainDateTryNew ws.year ws.month ws.day
-      let we ← plainDateTryNew we.year we.month we.day
-      let untilR ← plainDateInternalDiff ws we .week
-      let r1 := truncToIncrement (F64.ofInt (date.weeks + untilR.weeks)) inc
-      pure (r1, r1 + step, dateDur date.years date.months r1 0, dateDur date.years date.months (r1 + step) 0)
-    | .day =>
-      let r1 := truncToIncrement date.days inc
-      .ok (r1, r1 + step, dateDur date.years date.months date.weeks r1,
-           dateDur date.years date.months date.weeks (r1 + step))
-    | _ => .panic : Out (Int × Int × Dur × Dur))
+  let (r1, r2, startD, endD) ← nudgeBracket sign dt date o
   let startD ← Dur.new startD
   let endD ← Dur.new endD
   let start ← addDateToDt dt startD
